@@ -56,7 +56,7 @@ func cmdReplay(args []string) {
 			if err != nil {
 				vh.Die("%s", err)
 			}
-			w.KeepLists = (int(lm)+rot)%2 == 0
+			w.KeepLists = true
 			worlds[s+string(rune('0'+int(lm)))] = w
 		}
 		if s == "refl" { // one world per binding mode: by name / RegisterType / three spellings of @go
@@ -65,7 +65,7 @@ func cmdReplay(args []string) {
 				if err != nil {
 					vh.Die("%s", err)
 				}
-				w.KeepLists = (int(b)+rot)%2 == 0
+				w.KeepLists = true
 				worlds["refl"+string(rune('0'+int(b)))] = w
 			}
 		}
